@@ -1158,6 +1158,7 @@ func checkSetNode(w *World, r *Report) {
 	checkSetVariablePrimitive(w, r)
 	checkNoVariableRemoval(w, r)
 	checkLoopAlwaysBound(w, r)
+	checkAttributeNamesNotSpecialCased(w, r)
 	fn := w.ssaFunc(w.method("SetNode", "Render"))
 	setVar := w.method("RenderContext", "SetVariable")
 	evalM := w.method("RenderContext", "EvaluateExpression")
@@ -1800,4 +1801,120 @@ func checkLoopAlwaysBound(w *World, r *Report) {
 		})
 	}
 	r.floor("renders of a for loop's body", n, 1)
+}
+
+// checkAttributeNamesNotSpecialCased — R09.14: `x.name` on a hash is the entry called name,
+// whatever the name.  `loop` is a plain hash (index, index0, revindex, revindex0, first, last,
+// length); an attribute shorthand that recognises a particular name (`.length`, `.first`, `.keys`)
+// before the generic key lookup answers `loop.length` with the size of the loop record.  The
+// attribute name of a GetAttr node — and every parameter it is handed on to — is therefore
+// compared with a string constant only where a map lookup under that name dominates the test.
+func checkAttributeNamesNotSpecialCased(w *World, r *Report) {
+	evalFn := w.method("RenderContext", "EvaluateExpression")
+	attrVals := map[ssa.Value]bool{}
+	for _, fn := range w.pkgFuncs() {
+		instrsOf(fn, func(in ssa.Instruction) {
+			ta, ok := in.(*ssa.TypeAssert)
+			if !ok {
+				return
+			}
+			if b, ok := ta.AssertedType.Underlying().(*types.Basic); !ok || b.Kind() != types.String {
+				return
+			}
+			for _, o := range originChain(ta.X) {
+				if ex, isEx := o.(*ssa.Extract); isEx {
+					o = ex.Tuple
+				}
+				c, ok := o.(*ssa.Call)
+				if !ok || calleeFunc(c) != evalFn {
+					continue
+				}
+				args := callArgs(c)
+				if len(args) == 0 {
+					continue
+				}
+				if t, f := originField(args[0], 0); t == "GetAttrNode" && f == "attribute" {
+					if ta.CommaOk {
+						for _, ref := range *ta.Referrers() {
+							if ex, ok := ref.(*ssa.Extract); ok && ex.Index == 0 {
+								attrVals[ex] = true
+							}
+						}
+					} else {
+						attrVals[ta] = true
+					}
+				}
+			}
+		})
+	}
+	nRoots := len(attrVals)
+	for changed := true; changed; {
+		changed = false
+		for v := range attrVals {
+			if v.Referrers() == nil {
+				continue
+			}
+			for _, ref := range *v.Referrers() {
+				c, ok := ref.(ssa.CallInstruction)
+				if !ok {
+					continue
+				}
+				g := c.Common().StaticCallee()
+				if g == nil || !isTwigFn(g) || len(g.Blocks) == 0 {
+					continue
+				}
+				for i, a := range c.Common().Args {
+					if a == v && i < len(g.Params) && !attrVals[g.Params[i]] {
+						attrVals[g.Params[i]] = true
+						changed = true
+					}
+				}
+			}
+		}
+	}
+	nCmp := 0
+	for v := range attrVals {
+		if v.Referrers() == nil {
+			continue
+		}
+		var fn *ssa.Function
+		if in, ok := v.(ssa.Instruction); ok {
+			fn = in.Parent()
+		} else if p, ok := v.(*ssa.Parameter); ok {
+			fn = p.Parent()
+		}
+		for _, ref := range *v.Referrers() {
+			bo, ok := ref.(*ssa.BinOp)
+			if !ok || (bo.Op != token.EQL && bo.Op != token.NEQ) {
+				continue
+			}
+			other := bo.Y
+			if bo.Y == v {
+				other = bo.X
+			}
+			s, isConst := constString(other)
+			if !isConst || s == "" {
+				continue
+			}
+			nCmp++
+			dominated := false
+			instrsOf(fn, func(in ssa.Instruction) {
+				lk, ok := in.(*ssa.Lookup)
+				if !ok || !sameValue(unspill(lk.Index), v) {
+					return
+				}
+				if lk.Block() == bo.Block() && instrIndex(lk) < instrIndex(bo) || lk.Block() != bo.Block() && lk.Block().Dominates(bo.Block()) {
+					dominated = true
+				}
+			})
+			construct := fmt.Sprintf("attribute name compared with %q", s)
+			if dominated {
+				r.ok("R09.14", ssaName(fn), construct, w.posOf(bo.Pos()), "a key lookup under the attribute name dominates the test", true)
+			} else {
+				r.bad("R09.14", ssaName(fn), construct, w.posOf(bo.Pos()), fmt.Sprintf("the attribute name is tested against %q where no map lookup under that name has been made first: for a hash that has such a key (`loop.%s`, a context hash) the shorthand answers instead of the entry", s, s))
+			}
+		}
+	}
+	r.ok("R09.14", "(package)", "attribute names reach key lookups un-special-cased", "-", fmt.Sprintf("%d attribute-name values followed through %d values/parameters; %d constant comparisons", nRoots, len(attrVals), nCmp), true)
+	r.floor("attribute-name values of GetAttr nodes", nRoots, 1)
 }
